@@ -9,10 +9,11 @@
 // precision (string equality per token, and of the whole line).  For matrices
 // (the operator switches the stream to scientific/showpoint itself and pads
 // with setw) every token is parsed with strtold and must agree with x[i][j] to
-// one unit in the last printed digit: |tok - x| <= 10^-p*|x| (scientific) or
-// 10^-p (fixed) - twice the worst error of a correctly rounded decimal
-// conversion, and far smaller than the difference between two slots (values per
-// slot differ by >= 2.6 %, p >= 2) - and the stream's flags/precision must be
+// the stream's precision: |tok - x| <= 4*10^-p*|x| (scientific) or 4*10^-p
+// (fixed) - 8 times the worst error of a correctly rounded decimal conversion
+// (half a unit of the last printed digit, which is also the worst ratio
+// observed), and far smaller than the difference between two slots (values per
+// slot differ by >= 13 %, p >= 2) - and the stream's flags/precision must be
 // what they were.  unsigned char elements stream as characters: only the
 // structure "(c c c)" is checked for them.
 #include "c04_common.h"
@@ -81,7 +82,7 @@ gen_text_values (Rng& r, uint64_t k, int N, T* a)
         case 0: return "primes";
         case 1: for (int i = 0; i < N; ++i) if (r.one_in (2)) a[i] = T (0); a[k / 4 % N] = T (0); return "zero";
         case 2: for (int i = 0; i < N; ++i) if (r.one_in (2)) a[i] = r.coin () ? L::max () : L::min (); a[k / 4 % N] = r.coin () ? L::max () : L::min (); return "extreme";
-        default: for (int i = 0; i < N; ++i) a[i] = T (r.range ((int64_t) L::min (), (int64_t) L::max ())); return "random_bits";
+        default: for (int i = 0; i < N; ++i) a[i] = T (r.u64 ()); return "random_bits"; // modular conversion: every bit pattern of T
     }
 }
 
@@ -183,7 +184,7 @@ static const Fmt MAT_FMTS[] = {
     {DEF | std::ios_base::fixed | std::ios_base::showpos | std::ios_base::uppercase, 4, "fixed.showpos.4"},
 };
 static const int N_MAT_FMTS = (int) (sizeof MAT_FMTS / sizeof MAT_FMTS[0]);
-static const int SMALL_PRIMES[25] = {2, 3, 5, 7, 11, 13, 17, 19, 23, 29, 31, 37, 41, 43, 47, 53, 59, 61, 67, 71, 73, 79, 83, 89, 97};
+static const int SMALL_PRIMES[17] = {2, 3, 5, 7, 11, 13, 17, 23, 29, 37, 43, 53, 61, 71, 83, 97, 113}; // any two differ by >= 13 %
 
 template <class V> void run_text_matrix (Ctx& c, uint64_t idx)
 {
@@ -197,13 +198,12 @@ template <class V> void run_text_matrix (Ctx& c, uint64_t idx)
     const uint64_t k = idx / N_MAT_FMTS;
     if (k % 3 != 2)
     {
-        // distinct values per slot, any two differ by >= 2.6 % (71 vs 73): a slot mix-up is far outside the tolerance (<= 1 %)
-        unsigned start = (unsigned) (r.u64 () % 25), step = 1 + (unsigned) (r.u64 () % 24); // 25 = 5^2: steps not divisible by 5 visit all
-        if (step % 5 == 0) ++step;
+        // distinct values per slot, any two differ by >= 13 %: a slot mix-up is far outside the tolerance (<= 4 %)
+        unsigned start = (unsigned) (r.u64 () % 17), step = 1 + (unsigned) (r.u64 () % 16); // 17 is prime: every step visits 17 distinct entries
         double scale = (fixed || k % 3 == 0) ? 1.0 : std::pow (10.0, (double) r.range (-20, 20));
         for (int i = 0; i < N; ++i)
         {
-            double p = SMALL_PRIMES[(start + (unsigned) i * step) % 25] * (1.0 + 0.001 * r.uniform ());
+            double p = SMALL_PRIMES[(start + (unsigned) i * step) % 17] * (1.0 + 0.001 * r.uniform ());
             a[i]     = T ((r.coin () ? p : -p) * scale);
         }
         cls = (k % 3 == 0) ? "primes" : "primes_scaled";
@@ -272,9 +272,10 @@ template <class V> void run_text_matrix (Ctx& c, uint64_t idx)
             else if (std::isinf (x)) ok = pv == (long double) x;
             else
             {
-                // one unit in the last printed digit; the correctly rounded conversion is within half of that
+                // a correctly rounded conversion is within half a unit of the last printed digit (worst ratio observed on
+                // the pristine tree: 1.0 of that half unit, see c.worst); the bound is 8 times that = 4 units
                 double unit = std::pow (10.0, -(double) f.prec) * (fixed ? 1.0 : std::fabs (x));
-                double tol  = unit + std::fabs (x) * 4.5e-16 + 1e-323; // + the parser's own rounding, + two quanta of the subnormal range
+                double tol  = 4.0 * unit + std::fabs (x) * 4.5e-16 + 1e-323; // + the parser's own rounding, + two quanta of the subnormal range
                 double err  = (double) fabsl (pv - (long double) x);
                 ok          = err <= tol && (std::signbit (pv) == std::signbit (x) || pv == 0);
                 ratio       = (unit > 0) ? err / (0.5 * unit + std::fabs (x) * 2.3e-16) : 0;
@@ -288,7 +289,7 @@ template <class V> void run_text_matrix (Ctx& c, uint64_t idx)
 
 } // namespace
 
-#define C04_TEXT_Q 12000
+#define C04_TEXT_Q 24000
 #define C04_TEXT_T 600000
 #define C04_REG_TEXT(V, tag, ...)                                                                                    \
     MON_SUB_IDX (run_text_line<V>, "text_" tag, C04_TEXT_Q, C04_TEXT_T)                                              \
@@ -297,7 +298,7 @@ template <class V> void run_text_matrix (Ctx& c, uint64_t idx)
 #define C04_REG_TEXT_MATRIX(V, tag)                                                                                  \
     MON_SUB_IDX (run_text_matrix<V>, "text_" tag, C04_TEXT_Q, C04_TEXT_T)                                            \
         .req ({"primes", "primes_scaled", "signed_zero", "extreme", "inf_nan", "random_bits", "fmt_default", "fmt_fixed", "fmt_scientific", "fmt_default.17", "fmt_fixed.2"}) \
-        .over ("operator<< of " + c04::Tr<V>::name () + " under 13 flag/precision settings (idx mod 13) x value classes: one pair of parentheses, one row per line, N tokens per row, strtold(token(i,j)) equals x[i][j] to one unit of the last printed digit, stream flags/precision restored")
+        .over ("operator<< of " + c04::Tr<V>::name () + " under 13 flag/precision settings (idx mod 13) x value classes: one pair of parentheses, one row per line, N tokens per row, strtold(token(i,j)) equals x[i][j] to 4 units of the last printed digit, stream flags/precision restored")
 
 #define C04_FP_TEXT_CLASSES {"primes", "primes_scaled", "signed_zero", "extreme", "inf_nan", "random_bits", "fmt_default", "fmt_fixed.3", "fmt_scientific.9", "fmt_showpos", "fmt_hexfloat", "fmt_default.17"}
 #define C04_INT_TEXT_CLASSES {"primes", "zero", "extreme", "random_bits", "fmt_default", "fmt_showpos", "fmt_hex.showbase", "fmt_oct"}
